@@ -79,8 +79,11 @@ func discoverObjects() ([]string, string) {
 	objectsOnce.Do(func() {
 		vm := newVM(300, 100_000_000)
 		prepareVM(vm)
-		lits := make([]string, len(instanceRoots))
-		for i, r := range instanceRoots {
+		roots := append([]string{}, instanceRoots...)
+		_, conv := conversionExprs() // data→accessor conversion histories: the objects, and (walked) their getter/setter values
+		roots = append(roots, conv...)
+		lits := make([]string, len(roots))
+		for i, r := range roots {
 			lits[i] = harness.JSString(r)
 		}
 		res := harness.Run(vm, objectsJS+"(["+strings.Join(lits, ",")+"])")
@@ -230,6 +233,31 @@ func runSweep(c sweepCase, jr *journal) (res jobResult) {
 			}
 		})
 		if hasGet || hasSet {
+			// the halves called from Go while no script runs, on their own object and on themselves
+			for _, halfName := range []string{"get", "set"} {
+				if (halfName == "get" && !hasGet) || (halfName == "set" && !hasSet) {
+					continue
+				}
+				halfName := halfName
+				do("Go:accessor half Value.Call at rest", c.Obj+" . "+lit+" ."+halfName, func() error {
+					half, err := vm.Run(fill(`Object.getOwnPropertyDescriptor(%O,%N).`+halfName, c.Obj, lit))
+					if err != nil {
+						return err
+					}
+					self, err := vm.Run("(" + c.Obj + ")")
+					if err != nil {
+						return err
+					}
+					if _, err = half.Call(self, 1); err != nil {
+						return err
+					}
+					if _, err = half.Call(half, half); err != nil {
+						return err
+					}
+					_, err = half.Call(otto.UndefinedValue())
+					return err
+				})
+			}
 			for _, k := range ks {
 				if hasGet {
 					script("getter.call(receiver)", fill(`Object.getOwnPropertyDescriptor(%O,%N).get.call(`+k.Expr+`)`, c.Obj, lit))
